@@ -32,6 +32,7 @@ struct blk {
     bool live;
     bool heap;
     bool guarded; /* pool block with canaries on both sides */
+    bool mallocd; /* exact-size malloc block made by s_exact_block (freed at case reset) */
 };
 static struct blk s_blk[MAXBLK];
 static size_t s_nblk;
@@ -53,6 +54,7 @@ static size_t s_new_block(uint8_t *p, size_t size, bool heap) {
     s_blk[s_nblk].live = true;
     s_blk[s_nblk].heap = heap;
     s_blk[s_nblk].guarded = !heap;
+    s_blk[s_nblk].mallocd = false;
     return s_nblk++;
 }
 
@@ -139,6 +141,18 @@ static size_t s_pool_block(size_t size) {
     return s_new_block(base + GUARD, size, false);
 }
 
+/* read-only source of a cursor: an exact-size malloc block, so that ASan's red zone starts at the first byte behind
+ * the view (a read past the cursor's length is a report, not a silent read of a neighbouring canary) */
+static size_t s_exact_block(size_t size) {
+    uint8_t *p = malloc(size ? size : 1);
+    HC_CHECK(p != NULL);
+    memset(p, FILL, size ? size : 1);
+    size_t id = s_new_block(p, size, false);
+    s_blk[id].guarded = false;
+    s_blk[id].mallocd = true;
+    return id;
+}
+
 static void s_check_guards(void) {
     for (size_t i = 1; i < s_nblk; ++i) {
         if (s_blk[i].guarded) {
@@ -212,6 +226,11 @@ static void s_reset(void) {
         }
     }
     s_quiet = false;
+    for (size_t i = 1; i < s_nblk; ++i) {
+        if (s_blk[i].mallocd) {
+            free(s_blk[i].ptr);
+        }
+    }
     s_nblk = 1; /* block 0 = the "" literal of aws_byte_cursor_next_split */
     s_blk[0].ptr = NULL;
     s_blk[0].size = 0;
@@ -404,7 +423,7 @@ int main(void) {
             if (c < 0) BAD();
             size_t len;
             uint8_t *p = hc_hex_decode(t[2], &len);
-            size_t id = s_pool_block(len);
+            size_t id = s_exact_block(len);
             memcpy(s_blk[id].ptr, p, len);
             free(p);
             s_c[c] = aws_byte_cursor_from_array(s_blk[id].ptr, len);
@@ -439,11 +458,25 @@ int main(void) {
             s_cbase[c] = s_base_of_buf(b);
             printf("P r -\n");
             s_print_cur(c);
+        } else if (IS("cur_sub") && n == 5) {
+            int d = CS(t[1]), sc = CS(t[2]);
+            if (d < 0 || sc < 0) BAD();
+            size_t off = hc_parse_size(t[3]), len = hc_parse_size(t[4]);
+            if (s_stale(sc)) SKIP("stale");
+            if (s_c[sc].ptr != NULL && off <= s_c[sc].len && len <= s_c[sc].len - off) {
+                struct aws_byte_cursor v = aws_byte_cursor_from_array(s_c[sc].ptr + off, len);
+                s_cbase[d] = s_cbase[sc];
+                s_c[d] = v;
+                printf("P r OK\n");
+            } else {
+                printf("P r ERR AWS_ERROR_INVALID_ARGUMENT\n");
+            }
+            s_print_cur(d);
         } else if (IS("cur_forge") && n == 4) {
             int c = CS(t[1]);
             size_t real = hc_parse_size(t[2]), len = hc_parse_size(t[3]);
             if (c < 0 || real == 0 || real > 4096) BAD();
-            size_t id = s_pool_block(real);
+            size_t id = s_exact_block(real);
             for (size_t i = 0; i < real; ++i) s_blk[id].ptr[i] = (uint8_t)i;
             s_c[c].ptr = s_blk[id].ptr;
             s_c[c].len = len;
@@ -956,7 +989,7 @@ int main(void) {
                 goto done;
             }
             /* the string lives in a guarded pool block: strlen bytes + the terminator */
-            size_t id = s_pool_block(slen + 1);
+            size_t id = isbuf ? s_pool_block(slen + 1) : s_exact_block(slen + 1);
             memcpy(s_blk[id].ptr, p, slen);
             s_blk[id].ptr[slen] = 0;
             free(p);
